@@ -5,6 +5,7 @@ package trace
 
 import (
 	"runtime"
+	"strings"
 	"sync"
 	"sync/atomic"
 	"time"
@@ -165,13 +166,26 @@ func (o *Obs) Pn(id int64) int64 {
 	panic("injected function panics on purpose")
 }
 
+var bigMessage = strings.Repeat("a large diagnostic payload ", 150000) // ~4 MB
+
+// Pnb logs like Fl and panics with a multi-megabyte message: turning it into the rule's
+// error takes milliseconds, which keeps the failing goroutine busy AFTER the rule body has
+// finished - a barrier that is released before the error is recorded becomes visible.
+func (o *Obs) Pnb(id int64) int64 {
+	l := o.Current()
+	l.hold(int(id))
+	l.add('f', int(id))
+	panic(bigMessage)
+}
+
 // Apis returns the map to inject (also usable as the pool's apiOuter).
 func (o *Obs) Apis() map[string]interface{} {
 	return map[string]interface{}{
-		"st": o.St,
-		"en": o.En,
-		"fl": o.Fl,
-		"pn": o.Pn,
+		"st":  o.St,
+		"en":  o.En,
+		"fl":  o.Fl,
+		"pn":  o.Pn,
+		"pnb": o.Pnb,
 	}
 }
 
